@@ -286,7 +286,14 @@ class C13(Prop):
             for c in rec.commands:
                 if c[2] is not None:
                     atoms.append((c[4], 2, "cmd", c[0], rec.id, c[2], rec.t0))
-        atoms.sort(key=lambda a: (a[0], a[1]))
+        # call-start markers (state as of the start of each call); calls are sequential, so ordering by
+        # (call id, seq) is the global order
+        atoms = [(a[4], a[0], a[1]) + a[2:] for a in atoms]
+        for rec in res.calls:
+            if rec.step >= 0:
+                atoms.append((rec.id, -1, -1, "start", None, rec.id, None, rec.t0))
+        atoms.sort(key=lambda a: (a[0], a[1], a[2]))
+        atoms = [a[1:] for a in atoms]
 
         # down periods (by step order -> call ids)
         down_since = {}
@@ -305,6 +312,7 @@ class C13(Prop):
 
         fails = {nid: 0 for nid in nid_name}
         evicting = {}
+        out_since = {}
         contact_times = {nid: [] for nid in nid_name}   # (time, call id) of contacts while the node is down
         final = scn["final"]
         wk_rk = {}
@@ -320,11 +328,38 @@ class C13(Prop):
             rec = calls.get(cid)
             if rec is None or rec.step < 0:
                 continue
+            if kind == "start":
+                # "while it is out its keys are served by the remaining servers": between the contact that took a
+                # server out (its (retry_attempts+2)-th failed contact in a row) and dead_timeout later, a call on
+                # one of its keys must reach some server, provided every other server is healthy and untroubled
+                if rec.outcome == "raise" or not out_since:
+                    continue
+                others_fine = lambda i: all(                                      # noqa: E731
+                    j == i or (step_health[rec.step][j] == "up" and fails[j] == 0 and not evicting.get(j)
+                               and out_since.get(j) is None) for j in nid_name)
+                served = {c[2] for c in rec.commands if c[2] is not None}
+                a0 = res.extra["args"][rec.step][0][0]
+                cks = list(a0.keys()) if isinstance(a0, dict) else (list(a0) if isinstance(a0, (list, tuple)) else [a0])
+                for k in cks:
+                    oi = name_nid[refhash.owner(names, k)]
+                    t_out = out_since.get(oi)
+                    if t_out is None or not (t_out < rec.t0 < t_out + dead - 8 * TICK) or not others_fine(oi):
+                        continue
+                    if prefix + (k.encode() if isinstance(k, str) else k) not in served:
+                        out.append(viol("keys-of-evicted-server-not-served", rec, key=repr(k), server=nid_name[oi],
+                                        out_for=round(rec.t0 - t_out, 4), dead_timeout=dead))
+                        break
+                continue
             if kind == "fail":
                 evicting[nid] = False          # being contacted: it is in rotation right now
                 fails[nid] += 1
                 contact_times[nid].append((now, cid, rec.step))
+                if fails[nid] == (ra + 2 if ra >= 1 else 1):
+                    out_since[nid] = now          # this failed contact is the one that takes it out
+                elif fails[nid] > (ra + 2 if ra >= 1 else 1):
+                    out_since[nid] = None         # contacted again: it was put back into rotation
             elif kind == "ok":
+                out_since[nid] = None
                 if step_health[rec.step][nid] == "up":
                     # The call that takes a server out of rotation still contacts it once; if that contact
                     # happens to succeed the server is out nevertheless (until revived).  From outside this
